@@ -66,8 +66,8 @@ theorem inv_step' {s s' : State} {t : Tid} (hi : Inv s) (h : step s t = some s')
     · rw [List.getElem?_set_ne (Ne.symm e)]
       exact hi.owner t2 ((hk2 t2 e).mp h2)
 
-theorem inv_init (src : List Int) (qs : List Query) : Inv (init src qs) := by
-  refine ⟨⟨rfl, Nat.zero_le _, ?_, ?_, ?_, ⟨rfl, rfl⟩⟩, ?_, ?_, ?_⟩
+theorem inv_init (src : List Int) (qs : List Query) (e : Option PyErr := none) : Inv (init src qs e) := by
+  refine ⟨⟨rfl, Nat.zero_le _, ?_, ?_, ?_⟩, ?_, ?_, ?_⟩
   · intro n h; cases h
   · intro h; cases h
   · intro h; cases h
@@ -99,8 +99,7 @@ theorem stepIter_none {sh : Shared} {t : Tid} {it : Iter} (h : stepIter sh t it 
     · cases h
     · split at h
       · cases h
-      · unfold step138ok at h
-        split at h <;> cases h
+      · split at h <;> cases h
   · rename_i hpc; exact Or.inl hpc
 
 /-! ### the termination measure -/
@@ -208,12 +207,19 @@ theorem stepIter_mu {sh sh' : Shared} {t : Tid} {it it' : Iter}
       rw [hm]; simp only [mu]; omega
   · -- l138
     have hm : mu sh.src.length it = (sh.src.length + 1 - it.i) * 40 + 8 + 2 * (10 - it.j) := by unfold mu; rw [hpc]
-    rw [step138_eq hs.noraise] at h
-    unfold step138ok at h
-    split at h <;> (
-      simp only [Option.some.injEq, Prod.mk.injEq] at h
+    unfold step138 at h
+    split at h
+    · simp only [Option.some.injEq, Prod.mk.injEq] at h
       obtain ⟨rfl, rfl⟩ := h
-      rw [hm]; simp only [mu]; omega)
+      rw [hm]; simp only [mu]; omega
+    · split at h
+      · simp only [Option.some.injEq, Prod.mk.injEq] at h
+        obtain ⟨rfl, rfl⟩ := h
+        rw [hm]; simp only [mu]; omega
+      · split at h <;> (
+          simp only [Option.some.injEq, Prod.mk.injEq] at h
+          obtain ⟨rfl, rfl⟩ := h
+          rw [hm]; simp only [mu, raiseTo]; omega)
   · -- l145
     simp only [Option.some.injEq, Prod.mk.injEq] at h
     obtain ⟨rfl, rfl⟩ := h
